@@ -394,6 +394,28 @@ func checkViews(r *listRec, how int) error {
 	if err := cmpSeq("ForEachValue calls", log, vals); err != nil {
 		return err
 	}
+	// untyped Reduce: every element once, in order, starting from the initial value as given (nil, a number, a slice)
+	for _, init := range []any{nil, 0, "seed", []any{}} {
+		log = nil
+		first := true
+		var firstAcc any
+		res := l.Reduce(init, func(acc, x any) any {
+			if first {
+				first, firstAcc = false, acc
+			}
+			rec(x)
+			return acc
+		})
+		if err := cmpSeq(fmt.Sprintf("Reduce(%#v) calls", init), log, vals); err != nil {
+			return err
+		}
+		if len(vals) > 0 && !reflect.DeepEqual(firstAcc, init) {
+			return fmt.Errorf("Reduce(%#v): the first call received the accumulator %#v", init, firstAcc)
+		}
+		if !reflect.DeepEqual(res, init) {
+			return fmt.Errorf("Reduce(%#v) with a callback that returns the accumulator gives %#v", init, res)
+		}
+	}
 	// MapX with an injective tag of (call number, value): the result determines the call sequence
 	n := 0
 	mk := func(v any) any { n++; poke(); return fmt.Sprintf("%d:%T:%v", n, v, idOf(v)) }
@@ -1160,6 +1182,25 @@ func aggFixed() (int, error) {
 		n++
 		if got := at.NewList(c.vals...).Prod(); got != c.want {
 			return n, fmt.Errorf("Prod of %v = %v, the product of the elements is %v", c.vals, got, c.want)
+		}
+	}
+	// extrema of lists whose every element lies beyond the int range / near the ends of the float range
+	for _, c := range []struct {
+		vals     []any
+		min, max float64
+	}{
+		{[]any{1e19, 3e25}, 1e19, 3e25}, {[]any{-1e19, -3e25}, -3e25, -1e19}, {[]any{1e300}, 1e300, 1e300}, {[]any{-1e300, -2e300}, -2e300, -1e300},
+		{[]any{math.MaxFloat64, 1e308}, 1e308, math.MaxFloat64}, {[]any{-math.MaxFloat64}, -math.MaxFloat64, -math.MaxFloat64},
+		{[]any{9.3e18, math.MaxInt}, float64(math.MaxInt), 9.3e18}, {[]any{-9.3e18, math.MinInt}, -9.3e18, float64(math.MinInt)},
+		{[]any{5e-324, 1e-320}, 5e-324, 1e-320}, {[]any{-5e-324}, -5e-324, -5e-324},
+	} {
+		n++
+		l := at.NewList(c.vals...)
+		if got := l.Min(); got != c.min {
+			return n, fmt.Errorf("Min of %v = %v, the minimum is %v", c.vals, got, c.min)
+		}
+		if got := l.Max(); got != c.max {
+			return n, fmt.Errorf("Max of %v = %v, the maximum is %v", c.vals, got, c.max)
 		}
 	}
 	for _, size := range []int{1<<14 + 3, 1<<16 + 1, 1<<18 + 1} {
